@@ -117,8 +117,11 @@ func (t *treeGen) node(depth int) *Node {
 	case x < pNamed:
 		t.nNamed++
 		n := &Node{Kind: "named", Name: fmt.Sprintf("m%d", t.nNamed)}
-		if t.rng.Intn(8) == 0 {
+		switch t.rng.Intn(10) {
+		case 0:
 			n.Name = "dup" // equal names at different levels must still be counted per level
+		case 1:
+			n.Name = "" // NewModule("", ...) is a module like any other: its failures are wrapped, too
 		}
 		for k := t.rng.Intn(5); k > 0; k-- {
 			n.Kids = append(n.Kids, t.node(depth+1))
